@@ -1100,6 +1100,83 @@ Proof.
     eexists. split; [reflexivity|]. cbn [fe_of]. apply H_reader. constructor.
 Qed.
 
+(* ---- the in-memory and mmap backends never panic, whatever the operations and arguments ----------------------- *)
+Lemma mem_bbytes s bnil n off :
+  mem_state s ->
+  exists s' r, bbytes any_backend s bnil n off = Some (s', r) /\ mem_state s' /\
+               (br_nil r = false -> 0 < n -> exists c, peekz (br_data r) 0 = Some c).
+Proof.
+  intros Hm. destruct s as [d|m| | |]; cbn [mem_state] in Hm; try tauto; cbn [bbytes any_backend].
+  - unfold bytes_bytes.
+    destruct ((off <? 0) || (n <? 0)) eqn:E1; [eexists _, _; split; [reflexivity|]; split; [exact I|discriminate]|].
+    destruct (n =? 0) eqn:E2; [eexists _, _; split; [reflexivity|]; split; [exact I|discriminate]|].
+    destruct (len d <=? off) eqn:E3; [eexists _, _; split; [reflexivity|]; split; [exact I|discriminate]|].
+    eexists _, _. split; [reflexivity|]. split; [exact I|]. cbn [br_nil br_data]. intros _ Hn.
+    b2p. apply peekz_in_range. rewrite len_slice_gen by (destruct (len d - off <? n); lia).
+    destruct (Z.ltb_spec (len d - off) n); lia.
+  - unfold mmap_bytes. destruct (mdata m) as [d|]; [|eexists _, _; split; [reflexivity|]; split; [exact I|discriminate]].
+    destruct ((off <? 0) || (n <? 0)) eqn:E1; [eexists _, _; split; [reflexivity|]; split; [exact I|discriminate]|].
+    destruct (len d <=? off) eqn:E3; [eexists _, _; split; [reflexivity|]; split; [exact I|discriminate]|].
+    eexists _, _. split; [reflexivity|]. split; [exact I|]. cbn [br_nil br_data]. intros _ Hn.
+    b2p. apply peekz_in_range. rewrite len_slice_gen by (destruct (len d - off <? n); lia).
+    destruct (Z.ltb_spec (len d - off) n); lia.
+Qed.
+
+Lemma mem_step st o :
+  mem_state (bst st) -> exists st' v, step any_backend st o = Some (st', v) /\ mem_state (bst st').
+Proof.
+  intros Hm. destruct st as [s c oo]. cbn [bst] in Hm.
+  assert (RB : forall n, exists s' r, read_bytes any_backend (mkSys s c oo) n =
+                Some (mkSys s' (mkReader (rpos c + len (br_data r)) (if rerr c =? 0 then br_err r else rerr c) (rlittle c)) oo, r)
+                /\ mem_state s' /\ (br_nil r = false -> 0 < n -> exists b, peekz (br_data r) 0 = Some b)).
+  { intros n. destruct (mem_bbytes s true n (rpos c) Hm) as (s' & r & E & M & P).
+    exists s', r. unfold read_bytes, set_cur. cbn [bst cur oth]. rewrite E. auto. }
+  destruct o; cbn [step]; unfold read_fixed, read_u8;
+    try (match goal with |- context [read_bytes any_backend _ ?n] =>
+           destruct (RB n) as (s' & r & E & M & P); rewrite E end;
+         cbn [option_bind fst snd];
+         try (destruct (br_nil r) eqn:En; [|destruct (P eq_refl ltac:(lia)) as (b & Hb); rewrite Hb; cbn [option_bind]]);
+         eexists _, _; (split; [reflexivity|exact M])).
+  - rewrite seek_factor. eexists _, _. split; [reflexivity|exact Hm].
+  - destruct (mem_bbytes s false n (rpos c) Hm) as (s' & r & E & M & P). cbn [cur bst]. rewrite E.
+    eexists _, _. split; [reflexivity|exact M].
+  - destruct (mem_bbytes s false n off Hm) as (s' & r & E & M & P). cbn [cur bst]. rewrite E.
+    eexists _, _. split; [reflexivity|exact M].
+  - eexists _, _. split; [reflexivity|exact Hm].
+  - eexists _, _. split; [reflexivity|exact Hm].
+  - eexists _, _. split; [reflexivity|exact Hm].
+  - eexists _, _. split; [reflexivity|exact Hm].
+  - eexists _, _. split; [reflexivity|exact Hm].
+  - eexists _, _. split; [reflexivity|exact Hm].
+  - eexists _, _. split; [reflexivity|]. unfold set_cur. cbn [bst bclose any_backend].
+    destruct s; cbn [mem_state fst] in *; tauto.
+  - eexists _, _. split; [reflexivity|exact Hm].
+Qed.
+
+Theorem memory_backends_never_panic_proof ops : forall st,
+  mem_state (bst st) -> exists st' outs, run any_backend st ops = Some (st', outs).
+Proof.
+  induction ops as [|o rest IH]; intros st Hm; cbn [run]; [eauto|].
+  destruct (mem_step st o Hm) as (st1 & v & S1 & M1). rewrite S1. cbn [option_bind fst snd].
+  destruct (IH st1 M1) as (st' & outs & R). rewrite R. cbn [option_bind fst snd]. eauto.
+Qed.
+
+(* ---- the read loop's fuel is never exhausted, whatever the source does ------------------------------------------ *)
+Lemma read_loop_fuel fuel : forall rem sched ewl fe need acc,
+  fe <> E_FUEL -> (Z.to_nat need < fuel)%nat ->
+  rd_err (read_loop fuel rem sched ewl fe need acc) <> E_FUEL.
+Proof.
+  induction fuel as [|f IH]; intros rem sched ewl fe need acc Hfe Hf; [lia|].
+  cbn [read_loop]. destruct (Z.leb_spec need 0) as [H0|H0]; [cbn [rd_err]; discriminate|].
+  set (r := src_read rem sched ewl fe need).
+  assert (Hr : rd_err r <> E_FUEL).
+  { unfold r, src_read. destruct rem; cbn [rd_err]; [exact Hfe|].
+    destruct ((len (skipz _ _) =? 0) && ewl); [exact Hfe|discriminate]. }
+  destruct (negb (rd_err r =? 0)); [cbn [rd_err]; exact Hr|].
+  destruct (Z.eqb_spec (len (rd_out r)) 0) as [Hz|Hz]; [cbn [rd_err]; discriminate|].
+  apply IH; [exact Hfe|]. pose proof (len_nonneg (rd_out r)). lia.
+Qed.
+
 (* ---- non-vacuity --------------------------------------------------------------------------------------- *)
 Definition ex_values : list value := [VU16 513; VI24 (-2); VBytes [7; 8]; VU64 (2 ^ 63 + 5); VI8 (-128)].
 
